@@ -5,7 +5,16 @@ open Rv
 def parsePath (s : String) : List String :=
   if s == "-" then [] else s.splitOn ","
 
-def step (_ : Unit) (ws : List String) : Unit × String :=
+/-- a trailing `ctx=live|done` word says whether the call gets an already cancelled context; neither the
+    model (the wrapper bodies do not look at the context) nor the specification (the hook decides what
+    to do with a done context) depends on it -/
+def dropCtx (ws : List String) : List String :=
+  match ws.getLast? with
+  | some w => if w.startsWith "ctx=" then ws.dropLast else ws
+  | none => ws
+
+def step (_ : Unit) (ws0 : List String) : Unit × String :=
+  let ws := dropCtx ws0
   match ws with
   | ["call", p, m, f] => ((), Hook.answer (parsePath p) m (f == "1"))
   | ["!call", p, m] =>  -- oracle line: the property, not the table
